@@ -54,7 +54,8 @@ pub fn batches(prop: &str, thorough: bool) -> Vec<Batch> {
     let b64k: [u64; 7] = [0, 0, 0, 0, 0, 1, 0];
     let b16m: [u64; 7] = [0, 0, 0, 0, 0, 0, 1];
     let long: [u64; 7] = [0, 0, 10, 40, 50, 0, 0];
-    let mk = |name, subjects: &[K], faults, classes: [u64; 7], runs| Batch { name, cfg: GenCfg { subjects: subjects.to_vec(), faults, classes }, runs };
+    let oversize = matches!(prop, "C01" | "C02");
+    let mk = |name, subjects: &[K], faults, classes: [u64; 7], runs| Batch { name, cfg: GenCfg { subjects: subjects.to_vec(), faults, classes, oversize }, runs };
     let count_tables = [Xsdt, Mcfg, Madt, Rhct, Hest, Rimt];
     match prop {
         "C01" => vec![
@@ -547,6 +548,7 @@ pub fn check(prop: &str, tier: &str, profile: &str, evidence_path: Option<String
                 .set("name", J::s(b.name))
                 .set("runs", J::U(b.runs))
                 .set("faults_enabled", J::Bool(b.cfg.faults))
+                .set("oversized_sub_element_counts", J::Bool(b.cfg.oversize))
                 .set("subjects", J::A(b.cfg.subjects.iter().collect::<BTreeSet<_>>().into_iter().map(|k| J::s(k.name())).collect()))
                 .set("length_class_weights_empty_short_medium_b256_long_b64k_b16M", J::A(b.cfg.classes.iter().map(|x| J::U(*x)).collect()))
                 .set("event_log_digest", J::s(&format!("{:016x}", r.digest)))
@@ -694,6 +696,20 @@ fn coverage_fractions(prop: &str) -> Vec<(&'static str, u64)> {
         // all cells of all SLIT shapes N<=6: sum N^2 = 91; all cells of all HMAT shapes 1..6 x 1..6: (sum 1..6)^2 = 441
         "C12" => vec![("c12.slit_shape_cells", 91), ("c12.hmat_shape_cells", 441)],
         "C14" => vec![("c14.aml_constructors", crate::amlgen::N_SELECTORS)],
+        // boolean-option subsets: 2^3 memory affinity, 2^2 generic initiator, 2^5 processor flags,
+        // 2^9 cache builder options, 2^5 CFMWS restrictions, 2^2 SLLBI flags, 2^9 TCPA options,
+        // 2^3 MSI frame setters
+        "C11" => vec![
+            ("c11.subsets.srat_memory_affinity", 8),
+            ("c11.subsets.srat_generic_initiator", 4),
+            ("c11.subsets.pptt_processor", 32),
+            ("c11.subsets.pptt_cache", 512),
+            ("c11.subsets.cedt_cfmws", 32),
+            ("c11.subsets.tcpa_server", 512),
+            ("c11.subsets.madt_gic_msi_frame", 8),
+            ("c11.fadt_flags_invoked", 25),
+            ("c11.fadt_flag_pairs_coinvoked", 300),
+        ],
         _ => vec![],
     }
 }
